@@ -532,6 +532,14 @@ func (t *wScreen) SetTitle(title string) {
 	js.Global().Call("setTitle", title)
 }
 
+// SetClipboard is not supported by the web backend.
+func (t *wScreen) SetClipboard(_ []byte) {
+}
+
+// GetClipboard is not supported by the web backend.
+func (t *wScreen) GetClipboard() {
+}
+
 // WebKeyNames maps string names reported from HTML
 // (KeyboardEvent.key) to tcell accepted keys.
 var WebKeyNames = map[string]Key{
